@@ -556,6 +556,9 @@ func (s *Store) FIsNaN(x *Term) *Term {
 	if x.isConst() {
 		return s.Bool(math.IsNaN(x.f64Val()))
 	}
+	if _, ok := dyadicChain(x); ok {
+		return s.Bool(false) // an integer times positive finite constants is never NaN
+	}
 	return s.mk(&Term{op: OFIsNaN, kind: KBool, a: []*Term{x}})
 }
 
